@@ -152,7 +152,9 @@ def parse_keyuri(uri):
     if issuer is None:
         issuer = prefix
     alg = params.get("algorithm", "SHA1")
-    if alg not in ("SHA1", "SHA256", "SHA512"):
+    # (the KeyURI document names SHA1 / SHA256 / SHA512; a writer may name any digest both ends know --
+    #  the reference accepts the upper-cased name of every constructor hashlib has)
+    if alg != alg.upper() or not callable(getattr(hashlib, alg.lower(), None)) or alg.startswith("_"):
         raise UriError("algorithm " + alg)
     known = {"secret", "issuer", "algorithm", "digits", "period"}
     extra = sorted(set(params) - known)
